@@ -94,7 +94,8 @@ StartCall(kind, ana) ==          \* ECU._request entered: send_time taken, then 
 Exch(nw, o) ==
   [req |-> ReqBytes(cur.kind), nw |-> nw,
    replies |-> IF HasReply(o) THEN <<ReplyBytes(cur.kind, o)>> ELSE <<>>,
-   out |-> Env(o), st |-> cstate, impl |-> IF implicit THEN "on" ELSE "off", ana |-> cur.ana]
+   out |-> Env(o), st |-> cstate, impl |-> IF implicit THEN "on" ELSE "off", ana |-> cur.ana,
+   illegal |-> o \in {"Mismatch", "Malformed"}]
 
 Send ==                           \* transport.write: the request is on the wire
   /\ pc = "presend"
